@@ -78,7 +78,7 @@ fn main() {
                     // every run has its own small aggregator, merged afterwards (the fatal hook needs the shared one)
                     let mut agg = { let g = sh.lock().unwrap(); Agg::new(g.agg.max_samples - g.agg.samples.len().min(g.agg.max_samples)) };
                     let r = if arms::solver_arm_opts(&arm).is_some() { arms::run_solver_arm(&arm, seed, i, &mut agg, &pre) }
-                        else if arm == "seq-sweep" { arms::run_seq_sweep(seed, i, &mut agg, None) }
+                        else if arm.starts_with("seq-sweep") { arms::run_seq_sweep(&arm, seed, i, &mut agg, None) }
                         else { history::run_history_arm(&arm, seed, i, &mut agg).unwrap_or_else(|| { eprintln!("unknown arm {arm}"); std::process::exit(2) }) };
                     sh.lock().unwrap().agg.merge(agg);
                     r
@@ -120,10 +120,10 @@ fn replay_payload(p: &serde_json::Value, agg: &mut Agg) -> Option<ViolationRecor
     let kind = p.get("kind").and_then(|k| k.as_str()).unwrap_or("");
     match kind {
         "solver" => { let sc: solve::Scenario = serde_json::from_value(p["scenario"].clone()).expect("bad scenario"); arms::run_scenario(&sc, 0, agg, &|_| {}) }
-        "seq-sweep" => { let sc: solve::Scenario = serde_json::from_value(p["scenario"].clone()).expect("bad scenario"); arms::run_seq_sweep(sc.seed, 0, agg, Some(&sc)) }
+        "seq-sweep" => { let sc: solve::Scenario = serde_json::from_value(p["scenario"].clone()).expect("bad scenario"); arms::run_seq_sweep(&sc.arm.clone(), sc.seed, 0, agg, Some(&sc)) }
         "seed" => {
             let arm = p["arm"].as_str().unwrap().to_string(); let seed = p["seed"].as_u64().unwrap();
-            if arms::solver_arm_opts(&arm).is_some() { arms::run_solver_arm(&arm, seed, 0, agg, &|_| {}) } else if arm == "seq-sweep" { arms::run_seq_sweep(seed, 0, agg, None) } else { history::run_history_arm(&arm, seed, 0, agg).flatten() }
+            if arms::solver_arm_opts(&arm).is_some() { arms::run_solver_arm(&arm, seed, 0, agg, &|_| {}) } else if arm.starts_with("seq-sweep") { arms::run_seq_sweep(&arm, seed, 0, agg, None) } else { history::run_history_arm(&arm, seed, 0, agg).flatten() }
         }
         _ => history::replay_history(p, agg),
     }
